@@ -55,6 +55,44 @@ def build(ctx):
     ctx.ground("crystal.Crystal/memo_fields/no_decorator_caches", not cached, tag="F",
                clause="no method is memoised by a caching decorator (lru_cache, cache, cached_property): such a cache is invisible to the invalidation discipline",
                detail=cached, witness={"methods": cached, "history": "[cached query, state-changing operation, same query] returns the stale value"})
+    # a memo's PRESENCE is tested only by the method that fills it: an answer that branches on hasattr(self, memo) anywhere else depends on which queries ran before
+    filler_of = {f: m for m, f in fillers.items()}
+    presence = []
+    for name, node in cf.methods.items():
+        for n in ast.walk(node):
+            fld = None
+            if isinstance(n, ast.Call) and isinstance(n.func, ast.Name) and n.func.id == "hasattr" and len(n.args) == 2 and isinstance(n.args[1], ast.Constant):
+                fld = n.args[1].value
+            elif isinstance(n, ast.Call) and isinstance(n.func, ast.Name) and n.func.id == "getattr" and len(n.args) == 3 and isinstance(n.args[1], ast.Constant):
+                fld = n.args[1].value            # getattr(self, memo, default): a presence test in disguise
+            elif isinstance(n, ast.Compare) and len(n.ops) == 1 and isinstance(n.ops[0], (ast.In, ast.NotIn)) and isinstance(n.left, ast.Constant) \
+                    and "__dict__" in ast.unparse(n.comparators[0]):
+                fld = n.left.value
+            if fld in memo_fields and filler_of.get(fld) != name and fld not in cf.info[name].memo_dels:
+                presence.append({"method": name, "line": n.lineno, "tests_presence_of": fld, "filled_by": filler_of.get(fld)})
+    ctx.ground("crystal.Crystal/memo_fields/presence_tested_only_by_the_filler", not presence, tag="F",
+               clause="hasattr(self, memo) / getattr(self, memo, default) / 'memo' in self.__dict__ occur only in the method that fills that memo (or in a method that deletes it): "
+               "no other answer may branch on whether a memo happens to be filled", detail=presence, witness={"sites": presence, "history": "[the query alone] versus [the memo's filler, then the query]"})
+    # a memo field is stored on `self` only: a method that plants a memo on ANOTHER crystal (one it has just built) gives that crystal an answer its own filler never computed
+    planted = []
+    for name, node in cf.methods.items():
+        for n in ast.walk(node):
+            tgt = fld = None
+            if isinstance(n, ast.Call) and isinstance(n.func, ast.Name) and n.func.id == "setattr" and len(n.args) == 3 and isinstance(n.args[1], ast.Constant):
+                tgt, fld = n.args[0], n.args[1].value
+            elif isinstance(n, (ast.Assign, ast.AugAssign, ast.AnnAssign)):
+                for t_ in (n.targets if isinstance(n, ast.Assign) else [n.target]):
+                    for el in (t_.elts if isinstance(t_, (ast.Tuple, ast.List)) else [t_]):
+                        if isinstance(el, ast.Attribute) and el.attr in memo_fields:
+                            tgt, fld = el.value, el.attr
+            elif isinstance(n, ast.Call) and isinstance(n.func, ast.Attribute) and n.func.attr == "update" and "__dict__" in ast.unparse(n.func.value) \
+                    and any(f_ in ast.unparse(n) for f_ in memo_fields):
+                tgt, fld = n.func.value, "via __dict__.update"
+            if fld is not None and (fld in memo_fields or fld.startswith("via")) and not (isinstance(tgt, ast.Name) and tgt.id == "self"):
+                planted.append({"method": name, "line": n.lineno, "stores": fld, "on": ast.unparse(tgt)})
+    ctx.ground("crystal.Crystal/memo_fields/stored_on_self_only", not planted, tag="F",
+               clause="a memo field is assigned on self only (never planted on another crystal object, e.g. a derived crystal that is being returned)", detail=planted,
+               witness={"sites": planted, "history": "[derive the crystal, ask the derived crystal] versus a fresh crystal with the derived cell, space group and sites"})
     mutators = []
     n_query = 0
     for name, node in cf.methods.items():
@@ -388,6 +426,7 @@ def history_kit():
         "cell_volume": lambda c: c.unit_cell.volume(),
         "atoms_in_radius": lambda c: c.atoms_in_radius(4.0, origin=(0.3, 0.2, 0.1)),
         "density": lambda c: c.density,
+        "symmetry_unique_dimers": lambda c: len(c.symmetry_unique_dimers(radius=3.0)[0]),
         "to_shelx_string": lambda c: c.to_shelx_string(titl="t"),
         "cif_geometry": cifgeo,
     }
@@ -406,6 +445,13 @@ def history_kit():
     with contextlib.redirect_stdout(io.StringIO()):
         for nm in ("r3c_example.cif", "acetic_acid.cif"):
             structures[nm] = Crystal.load(str(TEST_FILES[nm]))
+
+    # a structure with atoms on special positions (calcite, R-3c on hexagonal axes; built in memory): the number of unit-cell atoms is NOT operations x sites there, and
+    # it can be switched between the H and R settings
+    from chmpy.crystal import UnitCell as _UC, SpaceGroup as _SG, AsymmetricUnit as _AU
+    from chmpy import Element as _El
+    structures["calcite (built in memory)"] = Crystal(_UC.from_lengths_and_angles([4.99, 4.99, 17.06], [90.0, 90.0, 120.0], unit="degrees"), _SG(167, choice="H"),
+                                                      _AU([_El["Ca"], _El["C"], _El["O"]], np.array([[0.0, 0.0, 0.0], [0.0, 0.0, 0.25], [0.257, 0.0, 0.25]])))
 
     def fresh_like(c):
         """A crystal rebuilt from the primitive data of c (lattice vectors, setting, sites): nothing memoised anywhere can be carried over."""
@@ -437,11 +483,32 @@ def history_kit():
                     return {"step": step, "op": op, "what": "repeating the query gave a different result"}
         ref = fresh_like(c)
         for q in qnames:
+            if q == "symmetry_unique_dimers" and q not in hist:
+                continue            # (costly; asked again at the end only where the history itself used it)
             a, b = _summ(QUERIES[q](c)), _summ(QUERIES[q](ref))
             if a != b:
                 return {"step": len(hist), "op": q, "what": f"derived answer '{q}' differs from a freshly constructed crystal with the same cell, space group and asymmetric unit"}
+        # ... and from a fresh crystal that has answered nothing else before (an answer must not depend on which other answers happen to be memoised)
+        for q in ("density", "symmetry_unique_molecules", "slab_one_cell", "to_shelx_string"):
+            a, b = _summ(QUERIES[q](c)), _summ(QUERIES[q](fresh_like(c)))
+            if a != b:
+                return {"step": len(hist), "op": q, "what": f"derived answer '{q}' differs from that of a freshly constructed crystal asked this question first"}
         return None
-    _KIT.update(QUERIES=QUERIES, MUTATORS=MUTATORS, structures=structures, run_history=run_history)
+
+    DERIVED = {"as_P1()": lambda c: c.as_P1(), "as_P1_supercell((1,1,2))": lambda c: c.as_P1_supercell((1, 1, 2))}
+
+    def run_derived(sname, hist, dname):
+        """A crystal obtained from another one (after the history `hist` on the parent) answers like a fresh crystal with the derived cell, space group and sites."""
+        c = copy.deepcopy(structures[sname])
+        for op in hist:
+            (MUTATORS[op] if op in MUTATORS else QUERIES[op])(c)
+        d = DERIVED[dname](c)
+        for q in ("unit_cell_atoms", "unit_cell_molecules", "symmetry_unique_molecules", "density", "slab_one_cell", "cif_geometry"):
+            a, b = _summ(QUERIES[q](d)), _summ(QUERIES[q](fresh_like(d)))
+            if a != b:
+                return {"step": len(hist), "op": f"{dname} then {q}", "what": f"answer '{q}' of the derived crystal differs from a freshly constructed crystal with the derived crystal's own cell, space group and sites"}
+        return None
+    _KIT.update(QUERIES=QUERIES, MUTATORS=MUTATORS, structures=structures, run_history=run_history, run_derived=run_derived, DERIVED=DERIVED)
     return _KIT
 
 
@@ -491,7 +558,23 @@ def bounded_histories(ctx):
     while len(histories) < budget:
         L = int(rng.integers(2, maxlen + 1))
         histories.append((str(rng.choice(list(structures))), tuple(str(rng.choice(ops_all)) for _ in range(L))))
+    for sname in structures:
+        histories.append((sname, ("unit_cell_molecules", "symmetry_unique_dimers", "unit_cell_molecules")))
+        histories.append((sname, ("density", "unit_cell_atoms", "density")))
+        histories.append((sname, ("density", "choose_trigonal_lattice(R)", "density")))
+    derived = [(sname, hist, dname) for sname in ("acetic_acid.cif", "calcite (built in memory)") for hist in ((), ("unit_cell_molecules",)) for dname in kit["DERIVED"]]
     with contextlib.redirect_stdout(io.StringIO()):
+        for sname, hist, dname in derived:
+            evals += 1
+            distinct.add((sname, hist, dname))
+            try:
+                bad = kit["run_derived"](sname, hist, dname)
+            except Exception as e:  # noqa
+                bad = {"what": "exception " + repr(e)[:200]}
+            if bad and len(fails) < 3:
+                fails.append({"input": {"structure": sname, "history_on_the_parent": list(hist), "derived_by": dname}, "observed": bad,
+                              "clause": "a crystal derived from another one (P1 form, supercell) answers like a freshly constructed crystal with its own cell, space group and sites",
+                              "key": "derived"})
         for sname, hist in histories:
             evals += 1
             distinct.add((sname, hist))
@@ -503,6 +586,6 @@ def bounded_histories(ctx):
                 fails.append({"input": {"structure": sname, "history": list(hist)}, "observed": bad,
                               "clause": "after any history every derived answer equals that of a fresh crystal; queries do not modify core state; repeats are equal",
                               "key": "history"})
-    ctx.add_bounded("crystal.Crystal/bounded/history_replay", f"histories of length <= {maxlen} over 9 queries, 3 state-changing operations and deepcopy on r3c_example and acetic_acid",
+    ctx.add_bounded("crystal.Crystal/bounded/history_replay", f"histories of length <= {maxlen} over 9 queries, 3 state-changing operations and deepcopy on r3c_example, acetic_acid and an in-memory calcite (special positions); every answer also against a fresh crystal asked that question first; P1 forms / supercells against fresh crystals",
                     evals, len(distinct), fails, samples=[{"structure": s, "history": list(h)} for s, h in histories[:3]],
                     rule="distinct (structure, operation sequence); all (query, trigonal switch, same query) triples included")
